@@ -270,6 +270,7 @@ Fixpoint hx (s : string) : bytes :=
   | String a (String b r) => (16 * hexval a + hexval b) :: hx r
   | _ => []
   end.
+Arguments hx _%string_scope.
 Definition rep (n : N) (b : N) : bytes := repeat b (N.to_nat n).
 
 Fixpoint bytes_eqb (a b : bytes) : bool :=
